@@ -8,7 +8,9 @@ G: TLC (Emit_Signing) writes one vector per (kind, base message, single-field mu
    fields get every list of <= 2 entries over {"", a, b}^2.
 R: harness/cmd/signing: real secp256k1 keys; sessions signed with sigs.Sign and checked with
    sigs.ExtractSignerAddress, replies signed with lavaprotocol.SignRelayResponse and checked with
-   lavaprotocol.VerifyRelayReply; request and reply serialised before/after every call.
+   lavaprotocol.VerifyRelayReply (twice); request and reply serialised and the whole buffers backing reply.Data /
+   request data (layouts exact | spare capacity with a sentinel tail | request data sharing the buffer) compared
+   before/after every call.
 V: TLC (Trace_Signing) judges every line: real verdict vs the verdict the property demands, read-only.
 """
 import json
@@ -26,9 +28,14 @@ def _what(c):
         return "verification passes although signed field %s was changed after signing" % c.split(":", 1)[1]
     if c.startswith("rejects-untampered:"):
         return "verification fails although only the unsigned field %s (or nothing) was changed" % c.split(":", 1)[1]
-    if c.startswith("verify-modifies:"):
+    if c.startswith("verify-modifies:") and "salt" in c:
         return ("verifying a reply modifies the caller's request: %s (RelayExchange.DataToSign clears RelayData.Salt through the "
                 "shared pointer)" % c.split(":", 1)[1])
+    if c.startswith("verify-modifies:"):
+        return ("verifying a reply writes to memory it only checks: %s (reply.buffer-tail = bytes behind reply.Data in its backing "
+                "buffer; req.data = request data sharing that buffer)" % c.split(":", 1)[1])
+    if c.startswith("verdict-changes-on-recheck:"):
+        return "verifying the same, untouched objects a second time gives a different verdict (layout %s)" % c.split(":", 1)[1]
     return c
 
 
@@ -76,7 +83,14 @@ def run(ctx):
     b = vlib.tlc_mc(ctx, "Signing", "Signing_mc_md.cfg", timeout=600)
     if b["violated"] != "invariant:BindsReplyMd":
         raise vlib.Infra("sanity: BindsReplyMd must be refuted (ambiguous metadata encoding), got %s" % b["violated"])
-    ctx.notes.append("design level: AsFound=TRUE violates ReadOnly (F14); BindsReplyMd refuted (reply metadata encoding not injective)")
+    c = vlib.tlc_mc(ctx, "Signing", "Signing_mc_inplace.cfg", timeout=600)
+    if c["violated"] != "action:ReadOnly":
+        raise vlib.Infra("sanity: in-place DataToSign must violate ReadOnly, got %s" % c["violated"])
+    d = vlib.tlc_mc(ctx, "Signing", "Signing_mc_inplace2.cfg", timeout=600)
+    if d["violated"] != "invariant:Stable":
+        raise vlib.Infra("sanity: in-place DataToSign must violate Stable (shared buffer), got %s" % d["violated"])
+    ctx.notes.append("design level: AsFound=TRUE violates ReadOnly (F14); InPlace=TRUE violates ReadOnly and Stable; "
+                     "BindsReplyMd refuted (reply metadata encoding not injective)")
 
     opath = os.path.join(ctx.work, "vectors.ndjson")
     vlib.tlc_mc(ctx, "Emit_Signing", "Emit_Signing.cfg", workers=1, env={"VERIF_OUT": opath}, timeout=600, tag="emit")
@@ -89,8 +103,12 @@ def run(ctx):
     n_ok = sum(1 for r in rows if r["verdict"] == "ok")
     n_rej = len(rows) - n_ok
     salted = sum(1 for r in rows if r["kind"] == "reply" and r["base"] == 1 and r["field"] != "req.salt")
-    if len(fields) < 38 or n_ok < 50 or n_rej < 200 or salted < 100:
-        raise vlib.Infra("vacuous binding: fields=%d ok=%d reject=%d salted=%d" % (len(fields), n_ok, n_rej, salted))
+    lay = {y: sum(1 for r in rows if r["layout"] == y and r["verdict"] == "ok") for y in ("exact", "spare", "shared")}
+    rechecked = sum(1 for r in rows if r["verdict2"] in ("ok", "reject"))
+    if len(fields) < 38 or n_ok < 50 or n_rej < 200 or salted < 100 or min(lay.values()) < 20 or rechecked != len(rows):
+        raise vlib.Infra("vacuous binding: fields=%d ok=%d reject=%d salted=%d accepted-per-layout=%s rechecked=%d" % (
+            len(fields), n_ok, n_rej, salted, lay, rechecked))
+    ctx.cov["accepted_per_layout"] = lay
     ctx.cov["evaluations"] = len(rows)
     ctx.cov["distinct_nontrivial"] = sum(1 for r in rows if r["val"] != r["base"])
     ctx.cov["real_verdicts"] = {"ok": n_ok, "reject": n_rej, "fields": len(fields)}
@@ -104,7 +122,9 @@ def run(ctx):
     ctx.assumptions += ["ECDSA/SHA-256 unforgeability assumed (a signature is modelled as the signed view)",
                         "single-field mutations only (the statement's quantifier); requested block is concrete (no LATEST/EARLIEST "
                         "replacement by UpdateRequestedBlock)",
-                        "proto text form (String()) is injective per field - tested on the table values, not modelled"]
+                        "proto text form (String()) is injective per field - tested on the table values, not modelled",
+                        "memory layouts: reply.Data exactly sized / window of a buffer with 8 KiB sentinel-filled spare capacity / "
+                        "request data placed right behind it in the same buffer; concurrent use of one buffer is not exercised"]
     cand = _candidates(ctx, bad)
     if not cand:
         return
